@@ -351,6 +351,29 @@ def load_known():
 # verdict / evidence
 
 
+def cleanup_scratch():
+    """remove scratch directories left behind by harness processes that died (aborts)"""
+    import shutil
+    import tempfile
+    tmp = tempfile.gettempdir()
+    try:
+        names = os.listdir(tmp)
+    except OSError:
+        return
+    for n in names:
+        if not n.startswith("n2verif-"):
+            continue
+        parts = n.split("-")
+        pid = None
+        for x in parts[1:]:
+            if x.isdigit():
+                pid = int(x)
+                break
+        alive = pid is not None and os.path.exists("/proc/%d" % pid)
+        if not alive:
+            shutil.rmtree(os.path.join(tmp, n), ignore_errors=True)
+
+
 class Run:
     def __init__(self, prop, tier, seed, level="proof"):
         self.prop = prop
@@ -383,6 +406,7 @@ class Run:
         self.tie_broken.append({"what": what, "detail": detail})
 
     def finish(self):
+        cleanup_scratch()
         os.makedirs(os.path.join(VERIF, "evidence"), exist_ok=True)
         wall = round(time.time() - self.t0, 2)
         rc = 0
